@@ -64,6 +64,7 @@ def rule_fifo(ctx):
     loops = [st for st in walk_no_nested(f.node) if isinstance(st, ast.For)]
     ok = False
     fact = None
+    fflow = Flow(f)
     if loops:
         lp = loops[0]
         sub = [c for c in calls_in(lp, "submit")]
@@ -73,7 +74,7 @@ def rule_fifo(ctx):
         st = enclosing_stmt(cfgc[0]) if cfgc else None
         third = norm(st.targets[0].elts[2]) if st is not None and isinstance(st, ast.Assign) and isinstance(st.targets[0], ast.Tuple) else None
         ok = len(sub) == 1 and norm(lp.iter) == third and [norm(a) for a in sub[0].args] == ["self._call_map_function", norm(lp.target)] \
-            and sub[0] in [a for c in ins for a in c.args]
+            and norm(sub[0]) in [norm(fflow.resolve(a, at=c, depth=2, stop=(norm(lp.target),))) for c in ins for a in c.args]
     ctx.ob("FileSet.imap.submit", ok, fact, "one submit(self._call_map_function, args) per element of worker_args, in order, appended to the queue", node=loops[0] if loops else f.node, func=f)
 
 
@@ -182,7 +183,8 @@ def rule_ordered(ctx):
         ok = not bad
         if fname == "map":
             rets = [s for s in walk_no_nested(f.node) if isinstance(s, ast.Return)]
-            okr = len(rets) == 1 and norm(rets[0].value).replace(" ", "") == "list(pool.map(self._call_map_function,worker_args))"
+            okr = len(rets) == 1 and norm(Flow(f).resolve(rets[0].value, at=rets[0], depth=2, stop=("worker_args", "pool"))).replace(" ", "") \
+                == "list(pool.map(self._call_map_function,worker_args))"
             fact += "; return %s" % (norm(rets[0].value) if rets else None)
             ok = ok and okr
         ctx.ob("FileSet.%s.ordered" % fname, ok, fact, "no as_completed / wait; map returns list(pool.map(self._call_map_function, worker_args))", node=f.node, func=f)
@@ -229,10 +231,20 @@ def rule_errwrap(ctx):
     h = t.handlers[0]
     ok = False
     fact = None
-    if len(h.body) >= 2 and isinstance(h.body[0], ast.If) and norm(h.body[0].test) == "error_to_warning" and isinstance(h.body[-1], ast.Raise):
-        inner = h.body[0].body
-        ok = isinstance(inner[-1], ast.Return) and norm(inner[-1].value) == "_return(file_info, None)" and not h.body[0].orelse
-        fact = "if error_to_warning: warn; %s / else %s" % (norm(inner[-1]), norm(h.body[-1]))
+    from ..flow import arms
+    split = [(st, arms(st, "error_to_warning", h.body)) for st in h.body if isinstance(st, ast.If)]
+    split = [(st, a) for st, a in split if a is not None]
+    if len(split) != 1:
+        raise AnalysisError("_call_map_function: the handler does not branch once on error_to_warning")
+    warn_arm, raise_arm = split[0][1]
+    if not warn_arm or not raise_arm:
+        ok = False
+        fact = "one arm of the error_to_warning branch is empty"
+    else:
+        ok = isinstance(warn_arm[-1], ast.Return) and norm(warn_arm[-1].value) == "_return(file_info, None)" \
+            and any(calls_in(s_, "warn") for s_ in warn_arm) and isinstance(raise_arm[-1], ast.Raise) and len(raise_arm) == 1 \
+            and not any(calls_in(s_, "warn") for s_ in raise_arm)
+        fact = "error_to_warning: warn; %s / otherwise: %s" % (norm(warn_arm[-1]), norm(raise_arm[-1]))
     ctx.ob("FileSet._call_map_function.handler", ok, fact, "warning + (file_info, None) only under error_to_warning; otherwise the exception is re-raised", node=h, func=f)
 
 
@@ -287,11 +299,15 @@ def rule_align(ctx):
     nx = [c for c in calls_in(ip, "next")]
     ok2 = False
     if nx:
+        from ..flow import arms
         g = parent(enclosing_stmt(nx[0]))
-        ok2 = isinstance(g, ast.If) and norm(g.test) == "%s not in cache" % sv and enclosing_stmt(nx[0]) in g.body and len(nx) == 1
-        store = [s for s in g.body if isinstance(s, ast.Assign) and norm(s.targets[0]) == "cache[%s]" % sv] if isinstance(g, ast.If) else []
-        hit = [s for s in g.orelse if isinstance(s, ast.Assign) and norm(s.value) == "cache[%s]" % sv] if isinstance(g, ast.If) else []
-        ok2 = ok2 and bool(store) and bool(hit)
+        ab = arms(g, "%s not in cache" % sv) if isinstance(g, ast.If) else None
+        if ab is not None:
+            miss, hit_arm = ab
+            ok2 = any(enclosing_stmt(nx[0]) is s_ for s_ in miss) and len(nx) == 1
+            store = [s for s in miss if isinstance(s, ast.Assign) and norm(s.targets[0]) == "cache[%s]" % sv]
+            hit = [s for s in hit_arm if isinstance(s, ast.Assign) and norm(s.value) == "cache[%s]" % sv]
+            ok2 = ok2 and bool(store) and bool(hit)
     ctx.ob("FileSet.align.load_once", ok2, "next(loader) under: %s" % (norm(parent(enclosing_stmt(nx[0])).test) if nx and isinstance(parent(enclosing_stmt(nx[0])), ast.If) else None),
            "next(secondary_loader) only when the file is not cached; the loaded data is cached, a cached one is reused", node=nx[0] if nx else ip, func=f)
     # 3. name comparison raising AlignError
